@@ -106,6 +106,16 @@ DEFAULT_PORTS = {
 }
 
 
+def bracket_ipv6(host: bytes) -> bytes:
+    """
+    IPv6 literals need to be enclosed in square brackets wherever the host
+    is followed by an optional port. Eg. `Host` headers and serialised URLs.
+    """
+    if b":" in host and not host.startswith(b"["):
+        return b"[%b]" % host
+    return host
+
+
 def include_request_headers(
     headers: list[tuple[bytes, bytes]],
     *,
@@ -116,10 +126,11 @@ def include_request_headers(
 
     if b"host" not in headers_set:
         default_port = DEFAULT_PORTS.get(url.scheme)
+        host = bracket_ipv6(url.host)
         if url.port is None or url.port == default_port:
-            header_value = url.host
+            header_value = host
         else:
-            header_value = b"%b:%d" % (url.host, url.port)
+            header_value = b"%b:%d" % (host, url.port)
         headers = [(b"Host", header_value)] + headers
 
     if (
@@ -302,9 +313,10 @@ class URL:
         )
 
     def __bytes__(self) -> bytes:
+        host = bracket_ipv6(self.host)
         if self.port is None:
-            return b"%b://%b%b" % (self.scheme, self.host, self.target)
-        return b"%b://%b:%d%b" % (self.scheme, self.host, self.port, self.target)
+            return b"%b://%b%b" % (self.scheme, host, self.target)
+        return b"%b://%b:%d%b" % (self.scheme, host, self.port, self.target)
 
     def __repr__(self) -> str:
         return (
